@@ -237,7 +237,22 @@ def run(ctx: Ctx) -> None:
                         if not _reraises_bare(h):
                             bad_handlers.append(h)
                 prev = a
+            # context managers around the call: a package-defined one must not be able to swallow the exception
+            for a in ancestors(f.module, c):
+                if isinstance(a, (ast.FunctionDef, ast.AsyncFunctionDef)):
+                    break
+                if isinstance(a, (ast.With, ast.AsyncWith)) and type(a).__name__ != "InlineBlock":
+                    for it_ in a.items:
+                        why = _swallowing_cm(ctx, f, it_.context_expr)
+                        if why:
+                            bad_handlers.append((a, why))
             desc = f"exception of `{unparse(c, 50)}` propagates unchanged (no handler on the way)"
+            if bad_handlers and any(isinstance(h, tuple) for h in bad_handlers):
+                cms = [h for h in bad_handlers if isinstance(h, tuple)]
+                rep.bad("C10.R4", f.qname, desc, f.loc(c), [f"{f.loc(w_)}: `with {unparse(w_.items[0].context_expr, 50)}` around the call: {why_}" for (w_, why_) in cms] + [
+                    "a failing user function then does not raise: keep / eval return None, None is stored under the signature and the paths are committed"],
+                    stmt_key(c) + "cm", what="a context manager around the user call can swallow the user's exception")
+                continue
             if bad_handlers:
                 rep.bad("C10.R4", f.qname, desc, f.loc(c),
                         [f"{f.loc(h)}: except {unparse(h.type, 40)} does not end in a bare `raise`" for h in bad_handlers],
@@ -245,6 +260,111 @@ def run(ctx: Ctx) -> None:
             else:
                 rep.ok("C10.R4", f.qname, desc, f.loc(c), nontrivial=False)
     rep.floor("C10.R4", n4, 4)
+
+    # ---- R6: markers set on the way to the user's function are released on every exit -------------------------------------
+    rep.rule("C10.R6", "a marker put into non-local state (closure / module container) before a call that leads to the user's function, and taken out "
+                       "after it, is taken out on the exceptional exit too (try / finally)")
+    ADD = {"append", "add", "insert", "setdefault", "update", "__setitem__", "appendleft", "push"}
+    UNDO = {"pop", "remove", "discard", "clear", "popitem", "popleft", "__delitem__"}
+    n6 = 0
+    for q in sorted(reach):
+        f = prog.funcs[q]
+        locals_ = prog.local_names(f)
+        cfg = cfg_of(f)
+        sites = list(user_calls(f))
+        for n in f.own_nodes():
+            if isinstance(n, ast.Call) and n not in sites:
+                fs, _ = prog.callees(f, n, ctx._types)
+                if any(x.qname in reach for x in fs):
+                    sites.append(n)
+        if not sites:
+            continue
+
+        def nonlocal_base(e: ast.AST):
+            while isinstance(e, (ast.Attribute, ast.Subscript)):
+                e = e.value
+            if isinstance(e, ast.Name) and e.id not in locals_ and e.id not in ("self", "cls"):
+                return e.id
+            return None
+
+        adds, undos = [], []
+        for st in f.own_nodes():
+            if isinstance(st, ast.Expr) and isinstance(st.value, ast.Call) and isinstance(st.value.func, ast.Attribute):
+                b = nonlocal_base(st.value.func.value)
+                if b is not None and st.value.func.attr in ADD:
+                    adds.append((b, st))
+                elif b is not None and st.value.func.attr in UNDO:
+                    undos.append((b, st))
+            elif isinstance(st, ast.Assign) and any(isinstance(t, ast.Subscript) and nonlocal_base(t) is not None for t in st.targets):
+                for t in st.targets:
+                    if isinstance(t, ast.Subscript) and nonlocal_base(t) is not None:
+                        adds.append((nonlocal_base(t), st))
+            elif isinstance(st, ast.Delete):
+                for t in st.targets:
+                    if nonlocal_base(t) is not None:
+                        undos.append((nonlocal_base(t), st))
+            elif isinstance(st, ast.Assign) and isinstance(st.value, ast.Call) and isinstance(st.value.func, ast.Attribute) and st.value.func.attr in UNDO \
+                    and nonlocal_base(st.value.func.value) is not None:
+                undos.append((nonlocal_base(st.value.func.value), st))
+        for (b, a_st) in adds:
+            mine = [u for (ub, u) in undos if ub == b]
+            if not mine:
+                continue  # plain accumulation (statistics, registries): nothing is meant to be released
+            # only markers that bracket a call leading to the user's function
+            a_done = done_nodes(cfg, a_st)
+            brackets = any(dominated(ctx, f, c_, a_done) is None for c_ in sites)
+            if not brackets:
+                continue
+            n6 += 1
+            undo_nodes = [x for u in mine for x in cfg.nodes_of(u)]
+            fin_tags = {x.tag for x in undo_nodes if x.tag}
+            badp = None
+            for d in a_done:
+                p_ = cfg.find_path([d], [cfg.exit, cfg.exc_exit], avoid=undo_nodes, edge_ok=lambda a, b_, lab: not (lab == "exc" and a.tag in fin_tags))
+                if p_ is not None:
+                    badp = p_
+                    break
+            desc = f"`{unparse(a_st, 40)}` (marker in `{b}`) is undone on every exit of {f.name}"
+            if badp is None:
+                rep.ok("C10.R6", f.qname, desc, f.loc(a_st))
+            else:
+                rep.bad("C10.R6", f.qname, desc, f.loc(a_st), [f"`{b}` is state that outlives the call; when the user's function raises, the marker stays set:"] + witness_path(cfg, f, badp) + [
+                        "the failed evaluation looks clean, but every later evaluation that reaches the same function object in this process is refused / misled by the stale marker"],
+                        stmt_key(a_st), what="a marker set around the user's function is not released when the function fails")
+    rep.info("C10.R6", "dds", f"{n6} marker(s) bracketing a call that leads to the user's function", "dds/")
+
+
+def _swallowing_cm(ctx: Ctx, f: Func, e: ast.AST):
+    """why the context manager built by expression e can suppress an exception raised in its block (None when it cannot / is
+    not package code): contextlib.suppress; a @contextmanager generator with return / break / continue inside a `finally` or
+    an except clause that does not re-raise around its yield; a class whose __exit__ can return a true value"""
+    if not isinstance(e, ast.Call):
+        return None
+    d = ctx.prog.dotted(f, e.func) or ""
+    if d.endswith("contextlib.suppress") or d == "suppress":
+        return "contextlib.suppress discards the exception"
+    fs, _ = ctx.prog.callees(f, e, ctx._types)
+    for g in fs:
+        if any("contextmanager" in dec for dec in g.decorators):
+            for n in g.own_nodes():
+                if isinstance(n, ast.Try):
+                    holds_yield = any(isinstance(x, (ast.Yield, ast.YieldFrom)) for b in n.body for x in ast.walk(b))
+                    if not holds_yield:
+                        continue
+                    for st in n.finalbody:
+                        for x in ast.walk(st):
+                            if isinstance(x, (ast.Return, ast.Break, ast.Continue)):
+                                return f"{g.loc(x)}: `{unparse(x, 30)}` inside the `finally` of the generator context manager {g.name} discards the exception in flight"
+                    for h in n.handlers:
+                        if not _reraises_bare(h):
+                            return f"{g.loc(h)}: except {unparse(h.type, 30)} around the yield of {g.name} does not re-raise"
+        if g.name == "__init__" and g.cls is not None:
+            ex = g.cls.methods.get("__exit__")
+            if ex is not None:
+                for r in ex.own_nodes():
+                    if isinstance(r, ast.Return) and r.value is not None and not (isinstance(r.value, ast.Constant) and not r.value.value):
+                        return f"{ex.loc(r)}: {g.cls.name}.__exit__ can return a true value"
+    return None
 
 
 def _reraises_bare(h: ast.ExceptHandler) -> bool:
